@@ -18,9 +18,13 @@ case $ID in
   C27) TARGETS="fz_codec";;
   *) exit 0;;
 esac
-SEED=${VERIF_SEED:-20260921}; RUNS=${VERIF_FUZZ_RUNS:-1500000}
+SEED=${VERIF_SEED:-20260921}; RUNS=${VERIF_FUZZ_RUNS:-1500000}; SECS=${VERIF_FUZZ_SECS:-900}
+# a campaign ends after RUNS executions or SECS seconds, whichever comes first (a full interpreter
+# run under ASan makes ~50/s); the evidence records the executions actually made
 cd /verif/harness
 export RUSTFLAGS="--cap-lints warn" CARGO_NET_OFFLINE=true
+# also the leak check ASan makes when a campaign ends
+export ASAN_OPTIONS=detect_leaks=0
 cp -n Cargo.lock fuzz/Cargo.lock 2>/dev/null
 if ! timeout 3000 cargo +nightly fuzz build -O > /tmp/fuzz-build-$$.log 2>&1; then
   tail -5 /tmp/fuzz-build-$$.log; echo "INCONCLUSIVE property=$ID fuzz targets do not build"; exit 2
@@ -39,12 +43,14 @@ for t in $TARGETS; do
   done
   # 2. campaign from a fresh copy of the deterministic corpus
   W=fuzz/work/$t; rm -rf $W; mkdir -p $W fuzz/artifacts/$t; cp fuzz/corpus/$t/* $W/
-  timeout 3000 $BIN/$t $W -runs=$RUNS -seed=$SEED -len_control=0 -max_len=8192 -timeout=120 -rss_limit_mb=4096 -detect_leaks=0 -artifact_prefix=fuzz/artifacts/$t/ > /tmp/fuzz-run-$$.log 2>&1
-  code=$?
-  if grep -a -q "Test unit written to" /tmp/fuzz-run-$$.log; then
-    art=$(grep -a -m1 "Test unit written to" /tmp/fuzz-run-$$.log | sed 's/.*written to //')
+  # the targets' own stderr (parser diagnostics) is large: keep the tail of the log only
+  timeout 3000 $BIN/$t $W -runs=$RUNS -max_total_time=$SECS -seed=$SEED -len_control=0 -max_len=8192 -timeout=120 -report_slow_units=120 -rss_limit_mb=4096 -detect_leaks=0 -artifact_prefix=fuzz/artifacts/$t/ 2>&1 | tail -c 30000000 > /tmp/fuzz-run-$$.log
+  code=${PIPESTATUS[0]}
+  # slow-unit reports do not end a campaign (0.3 s natively can be > 10 s under ASan on a loaded machine)
+  if grep -a "Test unit written to" /tmp/fuzz-run-$$.log | grep -a -v -q "slow-unit-"; then
+    art=$(grep -a "Test unit written to" /tmp/fuzz-run-$$.log | grep -a -v "slow-unit-" | head -1 | sed 's/.*written to //')
     case "$(basename $art)" in
-      timeout-*|slow-unit-*)
+      timeout-*)
         # a time budget hit under ASan is never a violation: report it as inconclusive
         echo "INCONCLUSIVE property=$ID fuzz campaign $t hit the per-input time limit on $art"; exit 2;;
       oom-*)
@@ -57,12 +63,14 @@ for t in $TARGETS; do
   if [ $code -ne 0 ]; then echo "INCONCLUSIVE property=$ID fuzz campaign $t ended with code $code"; exit 2; fi
   done_line=$(grep -a "DONE" /tmp/fuzz-run-$$.log | tail -1)
   cov=$(echo "$done_line" | sed -n 's/.*cov: \([0-9]*\).*/\1/p'); corp=$(echo "$done_line" | sed -n 's/.*corp: \([0-9]*\).*/\1/p')
-  echo "fuzz $t: runs=$RUNS seed=$SEED cov=$cov corpus=$corp"
-  STATS="$STATS $t:$RUNS:${cov:-0}:${corp:-0}"
+  made=$(grep -a -o "Done [0-9]* runs" /tmp/fuzz-run-$$.log | tail -1 | grep -o "[0-9]*"); made=${made:-$RUNS}
+  echo "fuzz $t: runs=$made (limit $RUNS runs / $SECS s) seed=$SEED cov=$cov corpus=$corp"
+  STATS="$STATS $t:$made:${cov:-0}:${corp:-0}"
 done
 python3 - "$ID" $STATS <<'PY'
 import json,sys
-pid=sys.argv[1]; p=f'/verif/evidence/{pid}.json'
+import os
+pid=sys.argv[1]; p=f"{os.environ.get('VERIF_OUT','/verif')}/evidence/{pid}.json"
 e=json.load(open(p))
 fz=[]
 for s in sys.argv[2:]:
